@@ -414,6 +414,58 @@ def gen_case(rng: random.Random, *, trigger_names: float = 0.12, harmless_names:
     return case
 
 
+# ---- opt-in (C07): abstract result positions.  case["abstract"] = {"fields": [{"name", "type": TypeRef over Animal | Pet,
+#      "frags": [member type names selected with inline fragments], "iface": bool (the interface-level scalar fields are
+#      selected - on the interface itself, or inside every fragment for the union), "nest": bool (Cat.friend: Animal below)}]}
+ABSTRACT_POSSIBLE = {"Animal": ["Cat", "Dog", "Bird"], "Pet": ["Cat", "Dog"]}
+
+
+def abstract_iface_fields(case: Dict[str, Any]) -> List[Tuple[str, str]]:
+    out: List[Tuple[str, str]] = []
+    for s in result_scalars(case):
+        p = s.lower()
+        out += [(p + "Stamp", s + "!"), (p + "Opt", s), (p + "Items", "[" + s + "]")]
+    return out
+
+
+def abstract_sdl(case: Dict[str, Any]) -> List[str]:
+    common = "id: ID! " + " ".join(f"{n}: {t}" for n, t in abstract_iface_fields(case))
+    cat = " ".join(f"{s.lower()}Cat: {s}" for s in result_scalars(case))
+    dog = " ".join(f"{s.lower()}Dog: [{s}!]" for s in result_scalars(case))
+    return [f"interface Animal {{ {common} }}",
+            f"type Cat implements Animal {{ {common} {cat} lives: Int friend: Animal }}",
+            f"type Dog implements Animal {{ {common} {dog} barks: Boolean }}",
+            f"type Bird implements Animal {{ {common} }}",
+            "union Pet = Cat | Dog"]
+
+
+def abstract_member_selection(case: Dict[str, Any], member: str, iface: bool, nest: bool) -> str:
+    if member == "Cat":
+        sel = " ".join(f"{s.lower()}Cat" for s in result_scalars(case)) + " lives"
+        if nest:
+            inner = (" ".join(n for n, _ in abstract_iface_fields(case)) if iface else "")
+            sel += " friend { " + (inner + " ... on Dog { " + abstract_member_selection(case, "Dog", False, False) + " }").strip() + " }"
+        return sel.strip()
+    if member == "Dog":
+        return (" ".join(f"{s.lower()}Dog" for s in result_scalars(case)) + " barks").strip()
+    return "id"
+
+
+def abstract_selection(case: Dict[str, Any]) -> str:
+    parts = []
+    for f in case["abstract"]["fields"]:
+        base = base_of(f["type"])
+        ifs = " ".join(n for n, _ in abstract_iface_fields(case)) if f.get("iface") else ""
+        if base == "Animal":
+            frs = " ".join(f"... on {m} {{ {abstract_member_selection(case, m, bool(f.get('iface')), bool(f.get('nest')))} }}" for m in f["frags"])
+            body = (ifs + " " + frs).strip() or "id"
+        else:
+            body = " ".join(f"... on {m} {{ {(ifs + ' ' + abstract_member_selection(case, m, bool(f.get('iface')), bool(f.get('nest')))).strip()} }}"
+                            for m in f["frags"])
+        parts.append(f"{f['name']} {{ {body} }}")
+    return " ".join(parts)
+
+
 def finish_case(case: Dict[str, Any]) -> None:
     """derive SDL, operation documents and the generator configuration from the structural part"""
     lines: List[str] = []
@@ -428,6 +480,9 @@ def finish_case(case: Dict[str, Any]) -> None:
     rfields = ["ok: Boolean"]
     for s in case["scalars"]:
         rfields += [f"{s.lower()}Plain: {s}", f"{s.lower()}Req: {s}!", f"{s.lower()}List: [{s}]", f"{s.lower()}Deep: [[{s}!]]!"]
+    if case.get("abstract"):
+        lines += abstract_sdl(case)
+        rfields += [f"{f['name']}: {type_str(f['type'])}" for f in case["abstract"]["fields"]]
     lines.append("type R { " + " ".join(rfields) + " child: R kids: [R!] }")
     roots: Dict[str, List[str]] = {"query": ["noop: Boolean"], "mutation": []}
     docs = []
@@ -444,6 +499,8 @@ def finish_case(case: Dict[str, Any]) -> None:
             if case.get("fragments") and scal:
                 # opt-in: the scalar fields of `child` come through a fragment spread (a class of fragments.py as base)
                 sel = f"ok {scal} child {{ ...RScalars ok }} kids {{ {scal} }}"
+            if case.get("abstract"):
+                sel += " " + abstract_selection(case)
         docs.append(f"{op['kind']} {op['name']}" + (f"({vars_})" if vars_ else "") + " { " + op["field"] + (f"({call})" if call else "")
                     + " { " + sel + " } }")
     lines.append("type Query { " + " ".join(roots["query"]) + " }")
@@ -798,8 +855,11 @@ def gen_value(rng: random.Random, case: Dict[str, Any], gt: List[Any], *, top: b
     raise ValueError(name)
 
 
-def build_py(spec: Any, pkg: Any, case: Dict[str, Any]) -> Any:
-    """value spec -> the REAL Python argument (runs in the child, after the package is imported)"""
+def build_py(spec: Any, pkg: Any, case: Dict[str, Any], trace: Optional[List[Dict[str, Any]]] = None) -> Any:
+    """value spec -> the REAL Python argument (runs in the child, after the package is imported).
+    `trace` (optional): one record per constructor call of a generated input class, innermost first:
+    {"cls", "spec", "keys": the keywords really used, "set": dump keys of model_fields_set in class order}
+    or {..., "missing": [...], "other_errors": n, "error": text} when the class refused the keywords."""
     import datetime
     import importlib
 
@@ -819,7 +879,7 @@ def build_py(spec: Any, pkg: Any, case: Dict[str, Any]) -> Any:
             return datetime.datetime.fromisoformat(spec["j"])
         return spec["j"]
     if k == "list":
-        return [build_py(x, pkg, case) for x in spec["xs"]]
+        return [build_py(x, pkg, case, trace) for x in spec["xs"]]
     if k == "model":
         cls = getattr(pkg, spec["cls"])
         by_graphql: Dict[str, Tuple[str, Optional[str]]] = {}
@@ -833,8 +893,23 @@ def build_py(spec: Any, pkg: Any, case: Dict[str, Any]) -> Any:
             # the i-th attribute of the class belongs to the i-th field of the input type; a class that lost an
             # alias can only be addressed by its Python name
             py, alias = by_graphql.get(f["name"]) or positional[i]
-            kwargs[py if f.get("by") == "name" or alias is None else alias] = build_py(f["v"], pkg, case)
-        return cls(**kwargs)
+            kwargs[py if f.get("by") == "name" or alias is None else alias] = build_py(f["v"], pkg, case, trace)
+        for extra_key in spec.get("extra_keys", []):  # keywords that name no field (pydantic ignores them)
+            kwargs.setdefault(extra_key, 1)
+        if trace is None:
+            return cls(**kwargs)
+        rec: Dict[str, Any] = {"cls": spec["cls"], "spec": spec, "keys": list(kwargs)}
+        trace.append(rec)
+        try:
+            obj = cls(**kwargs)
+        except BaseException as e:  # noqa: BLE001
+            errs = e.errors() if hasattr(e, "errors") else []
+            rec["missing"] = [str(x["loc"][0]) for x in errs if x.get("type") == "missing" and x.get("loc")]
+            rec["other_errors"] = len([x for x in errs if x.get("type") != "missing"]) if errs else 1
+            rec["error"] = f"{type(e).__name__}: {str(e)[:200]}"
+            raise
+        rec["set"] = [(f.alias or py) for py, f in cls.model_fields.items() if py in obj.model_fields_set]
+        return obj
     raise ValueError(k)
 
 
